@@ -1067,6 +1067,22 @@ func runParallelModel(f *Frame, ins ssa.Instruction, call *ssa.CallCommon, ct *c
 	// per-key [par] postconditions
 	bq, kq := freshBVar("k", sortStr)
 	nct := &callTarget{fn: clo.Fn, bindings: clo.Bindings, display: shortName(clo.Fn), args: []Value{kq}, argTypes: []types.Type{types.Typ[types.String]}, sig: clo.Fn.Signature}
+	if f.root.safety {
+		// [safety] preconditions of the closure must hold for every argument (sweep obligation)
+		preEnv := f.calleeEnv(c, nct, pre, pre)
+		preEnv.bvars[bq.Name] = SV{t: kq, typ: types.Typ[types.String]}
+		for _, rq := range c.Requires {
+			if !hasTag(rq.Tags, "safety") {
+				continue
+			}
+			t, err := preEnv.formula(rq.Expr)
+			if err != nil {
+				f.eng.specError(c.Func, rq, err)
+				continue
+			}
+			f.oblige(pre, "pre", "RunParallel."+rq.Label, []string{"C20"}, rq.Tags, mkQuant("forall", []BVar{bq}, tImp(containsTerm(xs, kq), t)), ins.Pos(), rq.Text)
+		}
+	}
 	env := f.calleeEnv(c, nct, st, pre)
 	env.bvars[bq.Name] = SV{t: kq, typ: types.Typ[types.String]}
 	env.bindResults(tSelect(val, kq), clo.Fn.Signature)
